@@ -425,19 +425,43 @@ pub const NPATTERNS: usize = 9;
 
 /// strictly increasing values (C16)
 pub fn increasing_values(n: usize, rng: &mut Rng, start_zero: bool) -> Vec<u64> {
+    // magnitude classes, so that every packed output width 1..8 occurs on every node shape:
+    // 0 small steps (as many equal widths as possible), 1 steps up to 2^48, 2 everything above 2^56
+    // with small steps, 3 steps that spread the values over the whole u64 range
+    let class = rng.below(4);
     let mut v = vec![];
     let mut cur: u64 = if start_zero { 0 } else { 1 + rng.below(5) };
-    for _ in 0..n {
+    let spread = u64::MAX / (n as u64 + 2);
+    for i in 0..n {
         v.push(cur);
-        let step = match rng.below(6) {
-            0 => 1,
-            1 => 2,
-            2 => 255,
-            3 => 256,
-            4 => 1 + rng.below(70000),
-            _ => 1 + rng.below(1 << 33),
+        if class == 2 && i == 0 {
+            cur = (1u64 << 56) + rng.below(1 << 20);
+            continue;
+        }
+        let step = match class {
+            1 => 1 + rng.below(1 << (8 * (1 + rng.below(6)))),
+            3 => 1 + rng.below(spread),
+            _ => match rng.below(6) {
+                0 => 1,
+                1 => 2,
+                2 => 255,
+                3 => 256,
+                4 => 1 + rng.below(70000),
+                _ => 1 + rng.below(1 << 33),
+            },
         };
-        cur = cur.saturating_add(step);
+        cur = match cur.checked_add(step) {
+            Some(c) => c,
+            None => break,
+        };
+    }
+    // never fewer values than keys: fall back to consecutive values if the range was exhausted
+    while v.len() < n {
+        let last = *v.last().unwrap();
+        if last == u64::MAX {
+            return (0..n as u64).map(|i| i + if start_zero { 0 } else { 1 }).collect();
+        }
+        v.push(last + 1);
     }
     v
 }
